@@ -70,6 +70,7 @@ pub fn run(seed: u64, ntraces: usize) {
             Prop { target: target.clone(), call_data: vec![0, 0, 0, 9, 1], value: 0 },                     // undecodable call data
             Prop { target: target.clone(), call_data: call_data(b"gas", &[], 999_000_000), value: 0 },     // min gas above what is available
             Prop { target: target.clone(), call_data: call_data(b"pay", &[], 0), value: 5 },
+            Prop { target: target.clone(), call_data: call_data(b"configure", &[vec![], vec![1, 244], vec![]], 0), value: 0 },      // empty arguments are arguments: the call is dispatched with all three
         ];
         let mut steps: Vec<Value> = vec![];
         let mut pending: Vec<Pending> = vec![];
@@ -95,6 +96,11 @@ pub fn run(seed: u64, ntraces: usize) {
         if t % 8 == 6 { queue = vec![("cmd", 0, 0, 0), ("jump", 0, 0, 0), ("exec", 0, 2, 1), ("deliver_fail", 0, 0, 0), ("callback", 0, 0, 0),
                                      ("exec", 0, 2, 1), ("deliver_fail", 0, 0, 0), ("callback", 0, 0, 0), ("exec", 0, 2, 5), ("deliver_fail", 0, 0, 0), ("callback", 0, 0, 0), ("refund", 0, 0, 0), ("refund", 0, 0, 0)]; }
         if t % 8 == 3 { queue = vec![("cmd", 0, 0, 0), ("jump", 0, 0, 0), ("exec", 0, 0, 7), ("xfer_op", 0, 0, 0), ("deliver_fail", 0, 0, 0), ("callback", 0, 0, 0), ("refund", 0, 0, 0)]; }
+        // a proposal with EMPTY arguments dispatched on both paths: the target receives the scheduled call, argument for argument
+        if t % 8 == 5 { queue = vec![("cmd", 7, 0, 0), ("jump", 7, 0, 0), ("exec", 7, 0, 0), ("deliver_ok", 0, 0, 0), ("callback", 0, 0, 0),
+                                     ("cmd", 7, 2, 0), ("exec", 7, 1, 0), ("deliver_ok", 0, 0, 0), ("callback", 0, 0, 0)]; }
+        // an executed command, then somebody calls the gateway's validateMessage for it directly, the public batch is submitted again and the command replayed: refused
+        if t % 8 == 7 { queue = vec![("cmd", 1, 2, 0), ("exec", 1, 1, 0), ("deliver_ok", 0, 0, 0), ("callback", 0, 0, 0), ("stray", 0, 0, 0), ("exec", 1, 1, 0)]; }
         for _ in 0..nops {
             // time: sometimes jump to (just before / exactly) a scheduled eta
             let known: Vec<u64> = etas.iter().filter_map(|e| *e).filter(|e| *e >= now && *e < (1u64 << 40)).collect();      // never jump to a parked proposal's eta (2^63, u64::MAX)
@@ -105,7 +111,7 @@ pub fn run(seed: u64, ntraces: usize) {
             if let Some(("jump", pi, _, _)) = forced { if let Some(e) = etas[pi] { if e < (1u64 << 40) { now = now.max(e); w.set_time(now); } } }
             let has_undelivered = pending.iter().any(|p| p.result.is_none());
             let has_delivered = pending.iter().any(|p| p.result.is_some());
-            let k = match forced { Some(("cmd", _, _, _)) => 100, Some(("exec", _, 0, _)) => 6, Some(("exec", _, 2, _)) => 6, Some(("exec", _, _, _)) => 9,
+            let k = match forced { Some(("cmd", _, _, _)) => 100, Some(("stray", _, _, _)) => 100, Some(("exec", _, 0, _)) => 6, Some(("exec", _, 2, _)) => 6, Some(("exec", _, _, _)) => 9,
                         Some(("deliver_fail", _, _, _)) => 12, Some(("deliver_ok", _, _, _)) => 12, Some(("callback", _, _, _)) => 15, Some(("jump", _, _, _)) => 19, Some(("refund", _, _, _)) => 17, Some(("xfer_op", _, _, _)) => 18, _ => 0 };
             let k = if forced.is_some() { k }
                     else if has_delivered && r.chance(1, 3) { 15 }
@@ -120,7 +126,7 @@ pub fn run(seed: u64, ntraces: usize) {
                     (pi, cmd, match r.below(8) { 0 | 1 => 0, 2 | 3 => now + min_delay + r.below(30), 6 => 1u64 << 63, 7 => u64::MAX, _ => now + r.below(min_delay + 2) }) } };      // also etas in the upper half of u64: parked proposals
                 let p = &props[pi];
                 let mut payload = exec_payload(cmd, p, eta);
-                let variant = if forced.is_some() || r.chance(2, 3) { 0 } else { r.below(14) };
+                let variant = if let Some(("stray", _, _, _)) = forced { 14 } else if forced.is_some() || r.chance(2, 3) { 0 } else { r.below(15) };
                 if variant == 13 { let mut v = vec![cmd]; v.extend_from_slice(p.target.as_bytes()); v.extend(nested_buf(&p.call_data));
                     let mut padded = vec![0u8; 32]; let b = big(p.value); let n = b.len(); padded[32 - n..].copy_from_slice(&b); v.extend(nested_buf(&padded)); v.extend_from_slice(&eta.to_be_bytes()); payload = v; }   // the same value with leading zero bytes: the same proposal
                 if variant == 1 { payload[1..33].copy_from_slice(&[0u8; 32]); }            // zero target
@@ -146,15 +152,20 @@ pub fn run(seed: u64, ntraces: usize) {
                     steps.push(json!({"op": {"op": "gwApprove", "caller": hx(relayer.as_bytes()), "now": now, "messages": hx(&raw), "proof": hx(&pr.bytes),
                         "msg": mj}, "res": st.json}));
                 }
-                let (xc, xi, xs, xp) = if (variant == 9 || variant == 10) && !sent_cmds.is_empty() { r.pick(&sent_cmds).clone() } else { (chain, id, src, payload.clone()) };
-                if variant == 10 { if let Some((_, raw, proof, mj)) = batches.iter().find(|b| b.0 == xi).cloned() {
+                let (xc, xi, xs, xp) = if (variant == 9 || variant == 10 || variant == 14) && !sent_cmds.is_empty() { r.pick(&sent_cmds).clone() } else { (chain, id, src, payload.clone()) };
+                if variant == 14 && !sent_cmds.is_empty() {
+                    // a third party calls the gateway's validateMessage for the executed command directly: false, and nothing changes
+                    let ph = keccak(&xp);
+                    let st = w.call0(&users[2], &gw, "validateMessage", vec![xc.clone(), xi.clone(), xs.clone(), ph.clone()]);
+                    steps.push(json!({"op": {"op": "gwValidate", "caller": hx(users[2].as_bytes()), "now": now, "chain": hx(&xc), "id": hx(&xi), "src": hx(&xs), "ph": hx(&ph)}, "res": st.json})); }
+                if variant == 10 || variant == 14 { if let Some((_, raw, proof, mj)) = batches.iter().find(|b| b.0 == xi).cloned() {
                     // the public approval batch of an already executed command is submitted to the gateway again before the replay
                     let st = w.call0(&users[0], &gw, "approveMessages", vec![raw.clone(), proof.clone()]);
                     steps.push(json!({"op": {"op": "gwApprove", "caller": hx(users[0].as_bytes()), "now": now, "messages": hx(&raw), "proof": hx(&proof), "msg": mj}, "res": st.json})); } }
                 step = w.call0(&relayer, &gov, "execute", vec![xc.clone(), xi.clone(), xs.clone(), xp.clone()]);
                 if step.res.result_status == 0 {
                     sent_cmds.push((xc.clone(), xi.clone(), xs.clone(), xp.clone()));
-                    if variant != 9 && variant != 10 { match cmd { 0 => etas[pi] = Some(eta.max(now + min_delay)), 1 => etas[pi] = None, 2 => approved[pi] = true, _ => approved[pi] = false } }
+                    if variant != 9 && variant != 10 && variant != 14 { match cmd { 0 => etas[pi] = Some(eta.max(now + min_delay)), 1 => etas[pi] = None, 2 => approved[pi] = true, _ => approved[pi] = false } }
                 }
                 opj = json!({"op": "execute", "caller": hx(relayer.as_bytes()), "chain": hx(&xc), "id": hx(&xi), "src": hx(&xs), "payload": hx(&xp),
                              "label": format!("cmd{}/v{}", cmd, variant), "prop": pi, "cmd": cmd, "variant": variant});
@@ -209,7 +220,8 @@ pub fn run(seed: u64, ntraces: usize) {
                     rr.blockchain_mock.state.accounts.get_mut(&tgt).unwrap().egld_balance += &v2; } });
                 pending[i].result = Some(forged);
                 opj = json!({"op": "deliver", "id": pending[i].id, "ok": ok, "rets": rets.iter().map(|x| hx(x)).collect::<Vec<_>>(), "prop": pending[i].prop,
-                             "operator": pending[i].operator, "key": pending[i].key, "native": value.to_string(), "target": hx(pending[i].promise.call.to.as_bytes())});
+                             "operator": pending[i].operator, "key": pending[i].key, "native": value.to_string(), "target": hx(pending[i].promise.call.to.as_bytes()),
+                             "endpoint": hx(pending[i].promise.call.endpoint_name.as_str().as_bytes()), "args": pending[i].promise.call.arguments.iter().map(|a| hx(a)).collect::<Vec<_>>()});
             } else if k < 17 && pending.iter().any(|p| p.result.is_some()) {
                 let idxs: Vec<usize> = pending.iter().enumerate().filter(|(_, p)| p.result.is_some()).map(|(i, _)| i).collect();
                 let i = *r.pick(&idxs);
